@@ -200,9 +200,13 @@ func (ip *Interp) solveWith(c *sym.Term, allowEnum bool) (bool, map[string]uint6
 			if ip.Sol2 != nil && ip.Stats.XChecked < ip.XCheckBudget {
 				r2, _, err2 := ip.Sol2.Check(q, false)
 				ip.Stats.XChecked++
-				if err2 != nil || r2 != solver.Unsat {
+				switch {
+				case err2 == nil && r2 == solver.Unsat:
+				case err2 == nil && r2 == solver.Sat:
 					ip.Stats.XDisagree++
-					ip.inconcl = append(ip.inconcl, fmt.Sprintf("cross-check: %s did not confirm an unsat answer (%v %v)", ip.Sol2.Name, r2, err2))
+					ip.inconcl = append(ip.inconcl, fmt.Sprintf("cross-check: %s answers sat where %s answered unsat", ip.Sol2.Name, ip.Sol.Name))
+				default:
+					ip.Stats.XUnknown++ // timeout / unknown on the second solver: not confirmed, not a disagreement
 				}
 			}
 			return false, nil
